@@ -388,6 +388,12 @@ def examine(case):
                 try:
                     r = eval(c, envm)
                     if isinstance(r, ns.queries.QueryBuilder):
+                        if r is not envm["o0"] and not res.findings:
+                            # with immutable=False every chaining call updates and returns the ONE object
+                            meth = c[2:].lstrip(".").split("(")[0].split("[")[0].strip() or "slice"
+                            res.findings.append({"sig": {"class": "QueryBuilder", "method": "immutable=False", "changed": "returns-a-copy"},
+                                                 "what": "with immutable=False `%s` (method %s) returned another object than its receiver\n%s"
+                                                         % (c, meth, "\n".join(chain_calls))})
                         envm["o0"] = r
                 except Exception:
                     pass
